@@ -4,6 +4,7 @@ required_theorems, areas, partial, modelled_not_verified, assumptions are lists 
 
 PROP = {'drive': ['Cmapx'], 'harness_files': ['area_cmapx.go'], 'modules': ['SfntV.Props.C09b'],
  'required_theorems': ['C09_fmt12',
+                       'C09_fmt12_header',
                        'C09_fmt12_total',
                        'C09_fmt12_lib',
                        'C09_impl_eq_spec_12',
@@ -67,7 +68,9 @@ PROP = {'drive': ['Cmapx'], 'harness_files': ['area_cmapx.go'], 'modules': ['Sfn
 
 LEVEL = {'text': 'Proof (parts of C09 outside format 4): for every map uint32->glyph the model of Format12.Encode '
          'writes bytes on which an independent executable OpenType format-12 lookup returns the map (0 for '
-         'unmapped codes, all codes), with sorted disjoint groups; the model of decodeFormat12 accepts them '
+         'unmapped codes, all codes), with sorted disjoint groups and a header whose 32-bit length field equals '
+         'the byte length 16 + 12 x groups (also from 64 KiB on; large family of 5459..65536 isolated groups '
+         'through Encode, the header predicate and Table.Encode/Decode/Get/GetBest); the model of decodeFormat12 accepts them '
          '(<= 65536 entries) and, like the models of the format 0 and format 6 decoders, agrees with the '
          'specification lookup on every byte string it accepts; cmap.Decode and Table.Get on decoded tables '
          'never panic (checked-index models), and GetBest returns the first decodable candidate of the '
